@@ -284,6 +284,44 @@ def feed {G : Type} (ops : Ops G) (r : Nat) (isValid : G → Bool) :
     | .panic => .panic
     | .ok (st', _, _) => feed ops r isValid st' rest
 
+/-! ### `round1.Update` — block signature and random beacon together (`logical/round_sign_piece.go`) -/
+
+/-- What `round1` holds for one block: the generator of the block signature, the generator of the
+    random beacon, `bh.Signature`, `bh.Random` (`none` = not set yet) and `canProcessed`. -/
+structure Round1 (G : Type) where
+  g : SignGen G
+  r : SignGen G
+  blockSig : Option G
+  blockRandom : Option G
+  canProcessed : Bool
+  deriving DecidableEq
+
+/-- `round1.Start`: both generators get the same threshold. -/
+def Round1.start {G : Type} (k : Nat) : Round1 G := ⟨SignGen.new k, SignGen.new k, none, none, false⟩
+
+/-- The part of `round1.Update` that touches the generators. `checked` stands for all the guards in
+    front of it (block exists, sender's key known, piece signed over this block's hash, both
+    signatures verify — C15's subject); `rsig = none` is the guard `sig == nil || sig.IsNil()` on the
+    random-beacon share. Then: the block-signature share goes to `gSignGenerator`; if it was not added
+    (already recovered, or this sender already present) NOTHING else happens; otherwise the beacon share
+    goes to `rSignGenerator`, and only if `radd && generate && rgen` the header fields are written and
+    `canProcessed` is set. -/
+def round1Update {G : Type} (ops : Ops G) (r : Nat) (isValid : G → Bool) (st : Round1 G)
+    (id : Nat) (sig rsig : Option G) (checked : Bool)
+    (cg cr : Choice (Nat × Option G)) : Res (Round1 G) :=
+  if !checked || rsig.isNone then .ok st
+  else
+    match addWitnessSign ops r isValid st.g id sig cg with
+    | .panic => .panic
+    | .ok (g', add, generate) =>
+      if !add then .ok ⟨g', st.r, st.blockSig, st.blockRandom, st.canProcessed⟩
+      else
+        match addWitnessSign ops r isValid st.r id rsig cr with
+        | .panic => .panic
+        | .ok (r', radd, rgen) =>
+          if radd && generate && rgen then .ok ⟨g', r', g'.groupSign, r'.groupSign, true⟩
+          else .ok ⟨g', r', st.blockSig, st.blockRandom, st.canProcessed⟩
+
 /-! ### `GetGroupK` -/
 
 /-- Bit length (`0` for `0`). -/
@@ -312,5 +350,33 @@ def getGroupK (thr div : Nat) (n : Nat) : Option Nat :=
   else if a = 0 then some 0
   else if 2 ^ 53 ≤ a ∨ 2 ^ 53 ≤ div then none
   else some (ceilDyadic (fdiv53 a div))
+
+/-! ### Group size (`model/param.go`) -/
+
+/-- `IsGroupMemberCountLegal`. -/
+def isGroupMemberCountLegal (min max cnt : Nat) : Bool := decide (min ≤ cnt) && decide (cnt ≤ max)
+
+/-- `CreateGroupMemberCount(avail)`: `int(math.Ceil(float64(avail / ratio)))` — the division is the
+    INTEGER division (so the ceiling does nothing; exact while the quotient is below `2^53`), capped
+    at `max`, and `0` (no group) below `min`. `none` = integer division by zero (`ratio = 0`) or a
+    quotient outside the exact range. -/
+def createGroupMemberCount (min max ratio avail : Nat) : Option Nat :=
+  if ratio = 0 then none
+  else
+    let cnt := avail / ratio
+    if 2 ^ 53 ≤ cnt then none
+    else if cnt > max then some max
+    else if cnt < min then some 0
+    else some cnt
+
+/-- `genSharePiece(mems)`: the map `id.GetHexString() ↦ ShareSeckey(coeffs, id)`; `mems` are the
+    member ids below `2^256` (distinct ids are distinct keys, `id_key_injective`); an id listed twice
+    is one entry. `none` = `ShareSeckey` panicked (no coefficients). -/
+def genSharePiece (r : Nat) (cs : List Nat) : List Nat → Option (List (Nat × Nat))
+  | [] => some []
+  | x :: rest =>
+    match shareSeckey r cs x, genSharePiece r cs rest with
+    | some v, some m => some ((x, v) :: m.filter (fun e => e.1 != x))
+    | _, _ => none
 
 end Rangers.Model.Shamir
